@@ -7,7 +7,7 @@ from typing import Dict, List, Optional, Set, Tuple
 from ..ctx import Ctx
 from ..model import AnalysisError, Mod, norm, walk_scope, calls_in, PKG
 from ..util import equivalent
-from .opcodes import guards_of
+from .opcodes import guards_of, path_guards_of
 
 
 def _kws(c: ast.Call) -> Dict[str, str]:
@@ -29,20 +29,43 @@ def slc1(ctx: Ctx) -> None:
     # the limit may be read once into a local
     lim_names = {"spec.limit"} | {norm(a.targets[0]) for a in ast.walk(fn) if isinstance(a, ast.Assign) and norm(a.value) == "spec.limit"}
     head, tail = [], []
+    needs_len: Dict[int, str] = {}
+
+    def bound_form(e: Optional[ast.AST]) -> Optional[str]:
+        if e is None:
+            return None
+        t = norm(e)
+        if t in lim_names:
+            return "k"
+        if t in {"-" + x for x in lim_names}:
+            return "-k"
+        if t in {f"len(frames) - {x}" for x in lim_names}:
+            return "L-k"
+        if t in {f"max(len(frames) - {x}, 0)" for x in lim_names} | {f"max(0, len(frames) - {x})" for x in lim_names}:
+            return "-k"     # clipped at 0: like a negative index, never wraps
+        return None
+
     for s_ in ast.walk(fn):
         # del frames[limit:]  /  frames = frames[:limit]   keep the head;   del frames[:-limit]  /  frames = frames[-limit:]   keep the tail
+        sl = None
         if isinstance(s_, ast.Delete) and isinstance(s_.targets[0], ast.Subscript) and norm(s_.targets[0].value) == "frames" and isinstance(s_.targets[0].slice, ast.Slice):
             sl = s_.targets[0].slice
-            if sl.upper is None and sl.lower is not None and norm(sl.lower) in lim_names:
+            lo, up = bound_form(sl.lower), bound_form(sl.upper)
+            if sl.upper is None and lo == "k":
                 head.append(s_)
-            elif sl.lower is None and sl.upper is not None and norm(sl.upper) in {"-" + x for x in lim_names}:
+            elif sl.lower is None and up in ("-k", "L-k"):
                 tail.append(s_)
+                if up == "L-k":
+                    needs_len[id(s_)] = norm(sl.upper)
         elif isinstance(s_, ast.Assign) and norm(s_.targets[0]) == "frames" and isinstance(s_.value, ast.Subscript) and norm(s_.value.value) == "frames" and isinstance(s_.value.slice, ast.Slice):
             sl = s_.value.slice
-            if sl.lower is None and sl.upper is not None and norm(sl.upper) in lim_names:
+            lo, up = bound_form(sl.lower), bound_form(sl.upper)
+            if sl.lower is None and up == "k":
                 head.append(s_)
-            elif sl.upper is None and sl.lower is not None and norm(sl.lower) in {"-" + x for x in lim_names}:
+            elif sl.upper is None and lo in ("-k", "L-k"):
                 tail.append(s_)
+                if lo == "L-k":
+                    needs_len[id(s_)] = norm(sl.lower)
     if len(head) != 1 or len(tail) != 1:
         ctx.R.undecided("SLC-1", f"limit trimming not recognised ({len(head)} head-keeping and {len(tail)} tail-keeping operations found)")
         return
@@ -62,23 +85,43 @@ def slc1(ctx: Ctx) -> None:
     else:
         ctx.R.fail("SLC-1", mod, parent, f"a limit must keep the frames nearest the given anchor: the head (outer side) iff inner is None and outer is not None, the tail otherwise; counterexample {cex}",
                    construct="limit-trimming condition")
+    # the guard: `limit is not None` always; `len(frames) > limit` is required only where the bound is computed as len(frames) - limit
+    # (a limit above the length makes that negative, which a slice reads from the other end); bounds written -limit / limit are
+    # clipped by the slice itself, so there the length test is an optimisation
     gs = guards_of(mod, parent, fn)
-    if len(gs) == 1 and gs[0][1]:
-        ln = [x for x in lim_names if x in norm(gs[0][0])] or ["spec.limit"]
-        at2 = [f"{ln[0]} is None", f"len(frames) > {ln[0]}"]
-        at3 = [f"{ln[0]} is None", f"len(frames) >= {ln[0]}"]
-        okg = False
-        for at in (at2, at3):
+    gexpr: Optional[ast.AST] = None
+    if gs:
+        parts = [g_ if pol else ast.UnaryOp(op=ast.Not(), operand=g_) for g_, pol in gs]
+        gexpr = parts[0] if len(parts) == 1 else ast.BoolOp(op=ast.And(), values=parts)
+    ln = [x for x in lim_names if gexpr is not None and x in norm(gexpr)] or ["spec.limit"]
+    shapes = []
+    for cmp_ in (">", ">="):
+        at = [f"{ln[0]} is None", f"len(frames) {cmp_} {ln[0]}"]
+        shapes.append((at, lambda e, at=at: (not e[at[0]]) and e[at[1]], "len"))
+    shapes.append(([f"{ln[0]} is None"], lambda e: not e[f"{ln[0]} is None"], "none-only"))
+    got = None
+    understood = False
+    if gexpr is not None:
+        for at, sp, kind in shapes:
             try:
-                okg = okg or equivalent(gs[0][0], lambda e, at=at: (not e[at[0]]) and e[at[1]], at)[0]
+                if equivalent(gexpr, sp, at)[0]:
+                    got = kind
+                understood = True
             except AnalysisError:
                 pass
-        if okg:
-            ctx.R.ok("SLC-1", "trimming happens iff a limit is given and exceeded")
-        else:
-            ctx.R.fail("SLC-1", mod, gs[0][0], "trimming must happen iff limit is not None and the list is longer than the limit", construct="limit guard")
+    if got == "len":
+        ctx.R.ok("SLC-1", "trimming happens iff a limit is given and exceeded")
+    elif got == "none-only" and not needs_len:
+        ctx.R.ok("SLC-1", "trimming happens iff a limit is given; the slice bounds clip themselves when the limit exceeds the length")
+    elif got == "none-only":
+        ctx.R.fail("SLC-1", mod, t, f"the tail-keeping bound `{list(needs_len.values())[0]}` is computed without the `len(frames) > limit` guard: for a limit larger than the number of frames it is negative, "
+                   "a slice reads a negative bound from the other end, and outer frames are dropped although the limit was not reached", construct="unguarded len(frames) - limit bound")
+    elif gexpr is None:
+        ctx.R.fail("SLC-1", mod, parent, "limit trimming lost its `limit is not None` guard: with no limit the slice bounds are None / -None", construct="limit guard")
+    elif understood:
+        ctx.R.fail("SLC-1", mod, gs[0][0], "trimming must happen iff limit is not None and the list is longer than the limit", construct="limit guard")
     else:
-        ctx.R.fail("SLC-1", mod, parent, "limit trimming lost its `limit is not None and len(frames) > limit` guard", construct="limit guard")
+        ctx.R.undecided("SLC-1", f"guard of the limit trimming not understood: `{norm(gexpr)[:80]}`")
     # yield from frames at the end
     last = fn.body[-1]
     if isinstance(last, ast.Expr) and isinstance(last.value, ast.YieldFrom) and norm(last.value.value) == "frames":
@@ -725,5 +768,104 @@ def slc6(ctx: Ctx) -> None:
         raise AnalysisError("SLC-6: the greenlet parent walk (g = g.parent with g.gr_frame) was not found in _glue")
 
 
-C04 = [slc1, slc2, slc3, slc4, slc5, slc6]
+def slc7(ctx: Ctx) -> None:
+    """SLC-7 the branch of unwrap_stackslice that stitches the running stack through greenlet parents is taken for every slice
+    of the current thread (whatever anchors are given): the plain f_back walk that follows it stops at the outermost frame of
+    the current greenlet, so any anchor-dependent condition on the stitching sends the slices it excludes to a walk that cannot
+    cross a greenlet boundary"""
+    mod = ctx.P.mod("_glue")
+    fn = mod.fn("unwrap_stackslice")
+    walk = [st for st in walk_scope(fn) if isinstance(st, ast.Assign) and len(st.targets) == 1 and isinstance(st.targets[0], ast.Name) and isinstance(st.value, ast.Attribute)
+            and st.value.attr == "parent" and norm(st.value.value) == st.targets[0].id]
+    if not walk:
+        ctx.R.undecided("SLC-7", "the greenlet parent walk is not in unwrap_stackslice itself")
+        return
+    anchors = {"spec"} | {norm(a.targets[0]) for a in fn.body if isinstance(a, ast.Assign) and norm(a.value).startswith("spec.")}
+    conj: List[ast.AST] = []
+    for g_, pol in guards_of(mod, walk[0], fn):
+        if isinstance(g_, (ast.While, ast.For)):
+            continue
+        if not pol:
+            conj.append(ast.UnaryOp(op=ast.Not(), operand=g_))
+        elif isinstance(g_, ast.BoolOp) and isinstance(g_.op, ast.And):
+            conj.extend(g_.values)
+        else:
+            conj.append(g_)
+    bad = []
+    unknown = []
+    for c in conj:
+        names = {x.id for x in ast.walk(c) if isinstance(x, ast.Name)}
+        t = norm(c)
+        if names & anchors:
+            bad.append(c)
+        elif "implementation" in t or "greenlet" in t.lower() or "parent" in t or t in ("greenlet is not None", "current is not None"):
+            continue
+        elif names <= {st.targets[0].id for st in walk} | {"current"}:
+            continue
+        else:
+            unknown.append(c)
+    if bad:
+        ctx.R.fail("SLC-7", mod, bad[0], f"the greenlet-stitched walk runs only when `{norm(bad[0])[:70]}`: slices excluded by that condition fall back to following f_back from the inner frame, which ends at the "
+                   "outermost frame of the current greenlet; an outer anchor in a parent greenlet is then never found (RuntimeError / truncated stack instead of the path an exception would take)",
+                   construct="anchor-dependent gate on the greenlet-stitched walk")
+    elif unknown:
+        ctx.R.undecided("SLC-7", f"gate of the greenlet-stitched walk not understood: `{norm(unknown[0])[:70]}`")
+    else:
+        ctx.R.ok("SLC-7", f"greenlet-stitched walk gated by {[norm(c)[:50] for c in conj]}", "no condition on the slice's anchors or limit")
+
+
+def slc8(ctx: Ctx) -> None:
+    """SLC-8 the search for an outer frame on other threads' stacks tries every other thread until one of them yields frames: the
+    loop over sys._current_frames() is left early only when the attempt for the thread at hand produced a non-empty list
+    (skipping the calling thread is a `continue`, never the end of the search: the order of that mapping is unspecified)"""
+    mod = ctx.P.mod("_glue")
+    fn = mod.fn("unwrap_stackslice")
+    loops = [l for l in walk_scope(fn) if isinstance(l, ast.For) and "sys._current_frames()" in norm(l.iter)]
+    if len(loops) != 1:
+        ctx.R.undecided("SLC-8", f"{len(loops)} loops over sys._current_frames() in unwrap_stackslice (1 expected)")
+        return
+    loop = loops[0]
+    res = {norm(a.targets[0]) for a in walk_scope(loop) if isinstance(a, ast.Assign) and len(a.targets) == 1 and isinstance(a.value, ast.Call) and norm(a.value.func) == "try_from"}
+    if not res:
+        ctx.R.undecided("SLC-8", "no `x = try_from(...)` inside the thread search loop")
+        return
+    n = 0
+    for b in walk_scope(loop):
+        if not isinstance(b, (ast.Break, ast.Return)):
+            continue
+        if isinstance(b, ast.Break) and [l for l in mod.ancestors(b) if isinstance(l, (ast.For, ast.While))][0] is not loop:
+            continue
+        n += 1
+        gs = path_guards_of(mod, b, loop)
+        found = False
+        for g_, pol in gs:
+            for x in ([g_] + (list(g_.values) if isinstance(g_, ast.BoolOp) and isinstance(g_.op, ast.And) and pol else [])):
+                t = norm(x)
+                if pol and (t in res or any(t in (f"len({r}) > 0", f"len({r})", f"{r} != []", f"len({r}) != 0") for r in res)):
+                    found = True
+                if not pol and any(t in (f"not {r}", f"len({r}) == 0") for r in res):
+                    found = True
+        if found:
+            ctx.R.ok("SLC-8", f"`{norm(b)}` at line {b.lineno} of the thread search", "only after try_from(...) returned frames")
+        elif any("get_ident" in norm(g_) for g_, _ in gs):
+            ctx.R.fail("SLC-8", mod, b, "the search of other threads' stacks ends when it meets the calling thread's own entry: threads that come after it in sys._current_frames() are never tried, so an outer "
+                       "frame running on one of them is reported as \"Couldn't find where the above frame is running\"", construct="thread search ends at the calling thread")
+        else:
+            ctx.R.undecided("SLC-8", f"the thread search loop is left at line {b.lineno} under conditions that do not test the result of try_from: {[norm(g_)[:40] for g_, _ in gs]}")
+    # the attempt itself must not be restricted to a subset of the other threads
+    for a in walk_scope(loop):
+        if isinstance(a, ast.Assign) and isinstance(a.value, ast.Call) and norm(a.value.func) == "try_from":
+            gs = path_guards_of(mod, a, loop)
+            other = [(g_, pol) for g_, pol in gs if "get_ident" not in norm(g_)]
+            if other:
+                ctx.R.undecided("SLC-8", f"try_from is attempted only under `{norm(other[0][0])[:60]}`")
+            elif not gs:
+                ctx.R.ok("SLC-8", "every thread's innermost frame is tried (including the caller's: harmless, the own stack was tried before)")
+            else:
+                ctx.R.ok("SLC-8", "every thread other than the calling one is tried", norm(gs[0][0]))
+    if n == 0:
+        ctx.R.ok("SLC-8", "the thread search loop has no early exit")
+
+
+C04 = [slc1, slc2, slc3, slc4, slc5, slc6, slc7, slc8]
 C09 = [gcm1, ctx678]
